@@ -48,12 +48,16 @@ ASSUMPTIONS.update({
     "eval_int_binop": "eval_int_binop (eval.rs) is NOT verified here: assumed to leave the bindings blocks, the pending expressions and the other frames alone and to hand back what it popped when it fails (the restore contract)",
     "eval_float_binop": "eval_float_binop (eval.rs) is NOT verified here: assumed to leave the bindings blocks, the pending expressions and the other frames alone and to hand back what it popped when it fails (the restore contract)",
     "eval_string_concat": "eval_string_concat (eval.rs) is NOT verified here: assumed to leave the bindings blocks, the pending expressions and the other frames alone and to hand back what it popped when it fails (the restore contract)",
-    "eval_namespace_access": "eval_namespace_access (eval.rs) is NOT verified here: assumed to leave the bindings blocks, the pending expressions and the other frames alone and to hand back what it popped when it fails (the restore contract)",
     "eval_struct_value": "eval_struct_value (eval.rs) is NOT verified here: assumed to leave the bindings blocks, the pending expressions and the other frames alone and to hand back what it popped when it fails (the restore contract)",
     "eval_call": "eval_call (eval.rs) is NOT verified here: assumed to leave the bindings blocks, the pending expressions and the other frames alone and to hand back what it popped when it fails (the restore contract)",
     "eval_method_call": "eval_method_call (eval.rs) is NOT verified here: assumed to leave the bindings blocks, the pending expressions and the other frames alone and to hand back what it popped when it fails (the restore contract)",
     "push_back_mut": "rpds::Vector::push_back_mut", "insert_mut": "rpds::HashTrieMap::insert_mut", "no_value": "Type::no_value()", "from_value": "Type::from_value inspects the value only",
     "vrev_cloned": "`xs.iter().rev().cloned().collect()` is the reversed copy", "check_string": "check_string (eval.rs; PROVED in unit restore): on failure it returns exactly the saved_values it was given",
+    "NsGuard": "opaque stand-in for the Ref<NamespaceInfo> that `ns_info.borrow()` returns", "vns_borrow": "RefCell::borrow: reads the namespace",
+    "vns_get_value": "`ns_info.values.get(&name)`: FxHashMap lookup (ghost ns_value)", "vns_is_exported": "`ns_info.exported_syms.contains(&name)`: FxHashSet membership (ghost ns_exports)",
+    "vns_path_display": "path rendering for the message", "vns_entries": "iterating `&ns.values` visits entries of the value table",
+    "vns_insert_imported": "FxHashMap::insert into the importing namespace; its precondition is the C34 obligation (the name is public in the imported namespace and the value is that namespace's value)",
+    "vns_insert": "FxHashMap::insert of the namespace value under the import's name",
     "Session": "opaque", "most_similar_var": "inspects env only", "new_string": "Value::new(Value_::String(s))", "new_float": "Value::new(Value_::Float(f))",
     "done_subexpressions": "-",
     "rv_len": "rpds::Vector::len", "rv_get": "rpds::Vector index",
@@ -65,6 +69,8 @@ ASSUMPTIONS.update({
 })
 LEMMAS = {}
 UNVERIFIED = {
+    "C34": ["only the run-time check of a qualified access `ns::item` (eval_namespace_access) is under contract: it yields the namespace's value and does so only for items marked public",
+            "unqualified imports: insert_imported_namespace copies into the importing namespace only names the imported one marks public (under contract); how exported_syms is populated when a file is loaded (load_toplevel_items), the check-time rule (infer_namespace_access in the type checker) and cyclic import loading are NOT under contract"],
     "C06": ["the FunLiteral arm of eval_expr (builds a closure value; it neither pushes nor pops bindings blocks in the source) is the only arm not under contract",
             "the step functions behind the arms that are stubs here (eval_let, eval_assign_update, eval_int_binop, eval_float_binop, eval_string_concat, eval_namespace_access, eval_struct_value, eval_call, eval_method_call): assumed not to touch the bindings-block count or the pending expressions",
             "eval_match_cases and the operand-count / loop-index preconditions of the arms (evaluator invariants established by earlier steps) are assumed; eval_break / eval_continue / eval_block are proved in unit blocks",
@@ -108,6 +114,12 @@ WITNESSES = [
     {"match": r"steps\.arm_(Match|If|While|ForIn|Try|Break|Continue)\.", "kind": "run-file", "props": ["C06"],
      "input": "fun f(o: Option<Int>): Int {\n  let t = 0\n  for x in [1, 2, 3] {\n    let a = x\n    if x == 2 { let b = a  continue }\n    match o { Some(v) => { let c = v  t += c } None => { let d = 1  t += d } }\n    while t < 0 { let e = 1  t += e }\n    try { let g = 1  t += g } catch (err) { let h = 1  t += h }\n  }\n  t\n}\nprintln(string_repr(f(Some(2))))\nfun g(): Int { if True { let z = 1 } z }\ng()\n",
      "expect": {"stdout_contains": "6", "stderr_contains": "No such variable"}, "note": "blocks of if/match/while/for/try are popped when they finish"},
+    {"match": r"steps\.eval_namespace_access\.", "kind": "run-dir", "props": ["C34"],
+     "files": {"lib.gdn": "public fun shown(): Int { 1 }\nfun hidden(): Int { 2 }\n",
+               "main.gdn": "import \"./lib.gdn\" as lib\nprintln(string_repr(lib::shown()))\nprintln(string_repr(lib::hidden()))\n"},
+     "main": "main.gdn",
+     "expect": {"py": "('1' not in out.split()) and 'the public item was not reachable: ' + (out+err)[-200:] or ('2' in out.split() and 'a non-public item was reachable through the import') or ('not marked' not in (out+err) and 'no visibility error was reported: ' + (out+err)[-200:]) or ''"},
+     "note": "ns::item reaches public items only"},
     {"match": r"steps\.eval_equality_binop\.", "kind": "run", "props": ["C13"],
      "input": "let a = Dict[\"a\" => Ok(1), \"b\" => Err(\"x\")]\nlet b = Dict[\"b\" => Err(\"x\"), \"a\" => Ok(1)]\nprintln(string_repr(a == b))\nprintln(string_repr(a != b))\nprintln(string_repr([a] == [b]))\nprintln(string_repr(([], 1) == ([], 1)))\nprintln(string_repr([1, 2] == [1, 2]))\nprintln(string_repr(Some([]) == Some([1])))\nprintln(string_repr(1 == 1.0))",
      "expect": {"stdout": "True\nFalse\nTrue\nTrue\nTrue\nFalse\nFalse"}, "note": "structurally equal containers built separately (different literal order, different recorded element types) are equal"},
@@ -272,12 +284,6 @@ pub fn eval_string_concat(env: &mut Env, expr_value_is_used: bool, lhs_position:
         r is Err ==> restores(*old(env), *final(env), r->Err_0.0.0@),
 { unimplemented!() }
 #[verifier::external_body]
-pub fn eval_namespace_access(env: &mut Env, expr_value_is_used: bool, symbol: &Symbol, recv_pos: &Position) -> (r: Result<(), (RestoreValues, EvalError)>)
-    requires old(env).stack.0@.len() >= 1,
-    ensures others_same(*old(env), *final(env)), blocks(*final(env)) == blocks(*old(env)), pend(*final(env)) == pend(*old(env)),
-        r is Err ==> restores(*old(env), *final(env), r->Err_0.0.0@),
-{ unimplemented!() }
-#[verifier::external_body]
 pub fn eval_struct_value(env: &mut Env, outer_expr_pos: &Position, expr_value_is_used: bool, type_symbol: TypeSymbol, field_exprs: &Vec<(Symbol, Rc<Expression>)>) -> (r: Result<(), (RestoreValues, EvalError)>)
     requires old(env).stack.0@.len() >= 1,
     ensures others_same(*old(env), *final(env)), blocks(*final(env)) == blocks(*old(env)), pend(*final(env)) == pend(*old(env)),
@@ -296,6 +302,40 @@ pub fn eval_method_call(env: &mut Env, expr_value_is_used: bool, caller_expr: Rc
         r is Err ==> restores(*old(env), *final(env), r->Err_0.0.0@),
 { unimplemented!() }
 #[verifier::external_body] pub struct Session { _o: u8 }
+// ---- namespaces (C34): ghost view of NamespaceInfo behind Rc<RefCell<..>> ----------------------------
+#[verifier::external_body] pub struct NsGuard { _o: u8 }
+/// the value a namespace holds under a name, and whether the name is marked public (exported)
+pub uninterp spec fn ns_value(ns: NamespaceRef, name: SymbolName) -> Option<Value>;
+pub uninterp spec fn ns_exports(ns: NamespaceRef, name: SymbolName) -> bool;
+pub uninterp spec fn guard_of(g: &NsGuard) -> NamespaceRef;
+#[verifier::external_body]
+pub fn vns_borrow(ns: &NamespaceRef) -> (r: NsGuard) ensures guard_of(&r) == *ns { unimplemented!() }
+#[verifier::external_body]
+pub fn vns_get_value<'a>(g: &'a NsGuard, name: &SymbolName) -> (r: Option<&'a Value>)
+    ensures r is Some <==> ns_value(guard_of(g), *name) is Some, r is Some ==> *r->Some_0 == ns_value(guard_of(g), *name)->Some_0,
+{ unimplemented!() }
+#[verifier::external_body]
+pub fn vns_is_exported(g: &NsGuard, name: &SymbolName) -> (r: bool) ensures r == ns_exports(guard_of(g), *name) { unimplemented!() }
+#[verifier::external_body]
+pub fn vns_path_display(env: &Env, g: &NsGuard) -> (r: String) { unimplemented!() }
+/// `for (sym, value) in &ns.values`: the entries of the namespace's value table
+#[verifier::external_body]
+pub fn vns_entries(g: &NsGuard) -> (r: Vec<(SymbolName, Value)>)
+    ensures forall|i: int| 0 <= i < r@.len() ==> ns_value(guard_of(g), (#[trigger] r@[i]).0) == Some(r@[i].1),
+{ unimplemented!() }
+/// `ns.borrow_mut().values.insert(k, v)` for a name taken from the imported namespace `from`:
+/// only names that `from` marks public may be copied into another namespace (C34)
+#[verifier::external_body]
+pub fn vns_insert_imported(into: &NamespaceRef, k: SymbolName, v: Value, Ghost(from): Ghost<NamespaceRef>)
+    requires ns_exports(from, k), ns_value(from, k) == Some(v),
+{ unimplemented!() }
+/// `ns.borrow_mut().values.insert(k, v)` of the namespace value itself (`import "x" as name`)
+#[verifier::external_body]
+pub fn vns_insert(into: &NamespaceRef, k: SymbolName, v: Value) { unimplemented!() }
+impl Clone for SymbolName {
+    #[verifier::external_body]
+    fn clone(&self) -> (r: Self) ensures r == *self { unimplemented!() }
+}
 impl<T> RpdsVector<T> {
     #[verifier::external_body]
     pub fn new() -> (r: Self) { unimplemented!() }
@@ -425,6 +465,35 @@ def build(tier):
         loops={1: dict(invariant=[("frame", "env.stack.0@.len() >= 1, others_same(*old(env), *env), blocks(*env) == blocks(*old(env)), pend(*env) == pend(*old(env))"),
                                   ("pushed_only_when_found", "!found ==> vals(*env) == vals(*old(env)).drop_last()")],
                        decreases="fields@.len() - __i1")}))
+    NS_RULES = BASE_RULES + [
+        rw.simple("R2", r"\bns_info\.borrow\(\)", "vns_borrow(ns_info)"),
+        rw.simple("R2", r"\bns_info\.values\.get\(&symbol\.name\)", "vns_get_value(&ns_info, &symbol.name)"),
+        rw.simple("R2", r"\bns_info\.exported_syms\.contains\(&symbol\.name\)", "vns_is_exported(&ns_info, &symbol.name)"),
+        rw.simple("R2", r"env\.relative_to_project\(&ns_info\.abs_path\)\.display\(\)", "vns_path_display(env, &ns_info)"),
+        rw.simple("local", r"format_type_error\(\"namespace\", ", "format_type_error(&\"namespace\", "),
+    ]
+    RECV = "vals(*old(env)).last()"
+    u.add_fn(EV, "eval_namespace_access", rules=NS_RULES, contract=restore_contract("1", extra_ensures=[
+        FRAME_NEUTRAL,
+        ("only_public_items_are_reachable", "*%s.0 matches Value_::Namespace { ns_info, .. } && !ns_exports(ns_info, symbol.name) ==> r is Err" % RECV, {"C34"}),
+        ("yields_the_namespace_s_value", "r is Ok && expr_value_is_used ==> (*%s.0 matches Value_::Namespace { ns_info, .. } && ns_value(ns_info, symbol.name) is Some"
+                                         " && vals(*final(env)) =~= vals(*old(env)).drop_last().push(ns_value(ns_info, symbol.name)->Some_0))" % RECV, {"C34"}),
+    ], props={"C07", "C02", "C06", "C34"}))
+    IMP_RULES = BASE_RULES + [
+        rw.simple("T1", r"Rc<RefCell<NamespaceInfo>>", "NamespaceRef"),
+        rw.simple("R2", r"current_ns\s*\.borrow_mut\(\)\s*\.values\s*\.insert\(namespace_sym\.name\.clone\(\), v\);", "vns_insert(&current_ns, namespace_sym.name.clone(), v);"),
+        rw.simple("R2", r"current_ns\s*\.borrow_mut\(\)\s*\.values\s*\.insert\(sym\.clone\(\), value\.clone\(\)\);", "vns_insert_imported(&current_ns, sym.clone(), value.clone(), Ghost(imported_ref));"),
+        rw.simple("R2", r"let imported_ns = imported_ns\.borrow\(\);", "let ghost imported_ref = imported_ns; let imported_ns = vns_borrow(&imported_ns);"),
+        rw.simple("R4", r"for \(sym, value\) in &imported_ns\.values \{", "let __entries = vns_entries(&imported_ns); let mut __i1: usize = 0; while __i1 < __entries.len() { let sym = &__entries[__i1].0; let value = &__entries[__i1].1; __i1 += 1;"),
+        rw.simple("R2", r"imported_ns\.exported_syms\.contains\(sym\)", "vns_is_exported(&imported_ns, sym)"),
+        rw.simple("local", r"Value::new\(Value_::Namespace \{", "Value::new(Value_::Namespace {"),
+    ]
+    u.add_fn(EV, "insert_imported_namespace", rules=IMP_RULES, contract=Contract(
+        ensures=[("an_unqualified_import_lists_public_names_only", "namespace_sym is None ==> forall|i: int| 0 <= i < r@.len() ==> ns_exports(imported_ns, #[trigger] r@[i])", {"C34"})],
+        loops={1: dict(invariant=[("only_public_names_so_far", "guard_of(&imported_ns) == imported_ref, forall|i: int| 0 <= i < syms@.len() ==> ns_exports(imported_ref, #[trigger] syms@[i])"),
+                                  ("entries", "__i1 <= __entries@.len(), forall|i: int| 0 <= i < __entries@.len() ==> ns_value(imported_ref, (#[trigger] __entries@[i]).0) == Some(__entries@[i].1)")],
+                       decreases="__entries@.len() - __i1")},
+        props={"C34"}))
     EQ_RULES = BASE_RULES + [UNREACH,
         rw.simple("R10", r"\blhs_value == rhs_value\b", "vq_value_eq(&lhs_value, &rhs_value)"),
         rw.simple("R10", r"\blhs_value != rhs_value\b", "!vq_value_eq(&lhs_value, &rhs_value)")]
@@ -551,7 +620,7 @@ def build(tier):
     arm2("Call", "Expression_::Call(receiver, paren_args) => match expr_state {", loops={1: ("__i1", "paren_args.arguments@.len()")})
     arm2("MethodCall", "Expression_::MethodCall(receiver_expr, meth_name, paren_args) => {", loops={1: ("__i1", "paren_args.arguments@.len()")})
     arm2("DotAccess", "Expression_::DotAccess(recv, sym) => {", needs=1)
-    arm2("NamespaceAccess", "Expression_::NamespaceAccess(recv, sym) => {")
+    arm2("NamespaceAccess", "Expression_::NamespaceAccess(recv, sym) => {", needs=1)
     arm2("Parentheses", "Expression_::Parentheses(paren) => {")
     arm2("Invalid", "Expression_::Invalid => {")
     # literal arms: pop the evaluated elements (first loop), or schedule them (second loop)
